@@ -100,6 +100,9 @@ pub struct Vfs {
     pub chunks: ChunkPlan,
     pub today: chrono::NaiveDate,
     pub cwd: String,
+    /// what `std::env::current_dir` reports to the simulated process (every path the
+    /// simulator hands out is absolute; `cwd` above stays the base of relative ones)
+    pub reported_cwd: String,
     pub stats: RefCell<Stats>,
 }
 
@@ -116,6 +119,7 @@ impl Vfs {
             chunks: ChunkPlan::whole(),
             today: chrono::NaiveDate::from_ymd_opt(2024, 6, 15).unwrap(),
             cwd: "/w".to_string(),
+            reported_cwd: "/w".to_string(),
             stats: RefCell::new(Stats::default()),
         }
     }
@@ -418,6 +422,11 @@ impl okane_core::verif::World for Vfs {
         }
         st.event(&format!("glob {} -> {:?}", pattern, ordered));
         Ok(ordered.into_iter().map(PathBuf::from).collect())
+    }
+
+    fn current_dir(&self) -> Option<std::path::PathBuf> {
+        self.stats.borrow_mut().event("cwd");
+        Some(std::path::PathBuf::from(&self.reported_cwd))
     }
 
     fn today(&self) -> chrono::NaiveDate {
